@@ -69,7 +69,7 @@ Section Parts.
 
   (* conjunct 3 *)
   Theorem monitor_C03_deleted :
-    forallb (gone_ok (out_final (run sc c0))) (events (out_trace (run sc c0))) = true.
+    forallb (gone_ok sc (out_final (run sc c0))) (events (out_trace (run sc c0))) = true.
   Proof.
     destruct (run_final sc c0 HWF ND NE) as [CI _].
     apply forallb_forall. intros e He. apply deleted_gone; assumption.
@@ -133,15 +133,7 @@ Definition c03_ex_c0 : cluster :=
        (Some [0; 1; 2; 3]) 20%N.
 
 Example c03_ex_WF : WF c03_ex_sc c03_ex_c0.
-Proof.
-  unfold WF. cbn. split; [|split; [|split; [|split; [|split]]]].
-  - intros _. repeat (constructor; [cbn; intros H; repeat (destruct H as [H|H]; [discriminate|]); exact H|]). constructor.
-  - repeat (constructor; [cbn; intros H; repeat (destruct H as [H|H]; [discriminate|]); exact H|]). constructor.
-  - intros c [<-|[<-|[<-|[<-|[]]]]]; reflexivity.
-  - intros c c' [<-|[<-|[<-|[<-|[]]]]] [<-|[<-|[<-|[<-|[]]]]]; cbn; intros H; try reflexivity; discriminate.
-  - discriminate.
-  - discriminate.
-Qed.
+Proof. apply wf_b_spec. vm_compute. reflexivity. Qed.
 
 Example monitor_C03_ex2 :
   has_error (out_trace (run c03_ex_sc c03_ex_c0)) = false /\
